@@ -194,6 +194,18 @@ impl Curve {
         self.min_distance.len()
     }
 
+    // The number of jobs that fit into an interval of length
+    // `largest_known_distance()`; this is less than the length of the
+    // prefix if the prefix ends in a plateau (i.e., a burst).
+    fn jobs_in_largest_known_interval(&self) -> usize {
+        let longest = self.largest_known_distance();
+        1 + self
+            .min_distance
+            .iter()
+            .take_while(|dist| **dist < longest)
+            .count()
+    }
+
     // note: does not extrapolate
     fn lookup_arrivals(&self, delta: Duration) -> usize {
         // TODO: for really large vectors, this should be a binary search...
@@ -241,7 +253,7 @@ impl ArrivalBound for Curve {
         if delta.is_non_zero() {
             // first, resolve long delta by super-additivity of arrival curves
             let prefix = delta / self.largest_known_distance();
-            let prefix_jobs = prefix as usize * self.jobs_in_largest_known_distance();
+            let prefix_jobs = prefix as usize * self.jobs_in_largest_known_interval();
             let tail = delta % self.largest_known_distance();
             if tail > self.min_job_separation() {
                 prefix_jobs + self.lookup_arrivals(tail) as usize
